@@ -414,9 +414,6 @@ impl DnsCache {
                                 .entry(ty_domain.to_string())
                                 .or_insert_with(HashSet::new)
                                 .insert(instance_name.to_string());
-
-                            // don't keep empty value for this key.
-                            self.srv.remove(instance_name);
                         }
                     }
 
@@ -442,6 +439,10 @@ impl DnsCache {
                 !expired
             });
         }
+
+        // Don't keep empty SRV values. This is done after the walk: an instance can be
+        // listed under several types (e.g. a subtype), and each of them has to be told.
+        self.srv.retain(|_, records| !records.is_empty());
 
         expired_instances
     }
